@@ -156,8 +156,9 @@ impl Screen {
                     self.problems.push(format!("EraseChars at column {} of {} (pending wrap)", cur.col, self.width));
                     return;
                 }
-                // ECH: a parameter of 0 means 1
-                let n = (*n).max(1);
+                // the command says how many cells to erase: zero cells is nothing (the encoder
+                // must not emit `CSI 0 X`, which a VT executes as one cell - that is C05's business)
+                let n = *n;
                 let end = (cur.col + n).min(self.width);
                 for col in cur.col..end {
                     self.break_wide(cur.row, col);
